@@ -241,6 +241,11 @@ def directed_case(rng, kind, analysis=None, floating=True):
         g.add('E', perm, sv_, extra_model=' %s' % fs(sv(rng)))
     elif kind == 'E':
         g.add('E', perm, sv_)
+    elif kind in ('Eopamp', 'EopampRo'):
+        nm = g.name('E')
+        l = '%s %s %s opamp %s %s %s %s%s' % (nm, perm[0], perm[1], perm[2], perm[3], fs(sv_), fs(sv(rng)),
+                                               (' ' + fs(rv_)) if kind == 'EopampRo' else '')
+        g.lines.append((l, l))
     elif kind == 'G':
         g.add('G', perm, sv_)
     elif kind == 'TF':
@@ -284,7 +289,7 @@ def directed_case(rng, kind, analysis=None, floating=True):
             'subs': dict(g.subs), 'omega': g.omega, 'kinds': [kind], 'directed': kind}
 
 
-DIRECTED_KINDS = ['E', 'Eac', 'G', 'F', 'H', 'TF', 'GY', 'TR', 'AM', 'K', 'Cic', 'Lic', 'I', 'W']
+DIRECTED_KINDS = ['E', 'Eac', 'Eopamp', 'EopampRo', 'G', 'F', 'H', 'TF', 'GY', 'TR', 'AM', 'K', 'Cic', 'Lic', 'I', 'W']
 
 
 def random_case(rng, analysis=None, max_nodes=5):
